@@ -112,7 +112,9 @@ class RegressorChain(BaseRegressor):
             raise ValueError(msg)
 
         for index, algo in enumerate(self.__algos):
-            algo._fit(input_data, output_data)
+            # Some regressors modify the learning data in place when fitting
+            # (e.g. centering of the inputs or outputs).
+            algo._fit(input_data.copy(), output_data.copy())
             output_data -= algo._predict(input_data)
             self.__algos[index] = algo
 
